@@ -165,6 +165,18 @@ CLAIMED["C13"] = dict(
     ref="DESIGN.md section 2 (C13)",
     technique="TLA+ process-state model + TLC enumeration of all bounded call histories + TLC trace validation of recorded histories against fresh-process results")
 
+CLAIMED["C14"] = dict(
+    text="FJAsmDiag.tla enumerates the fault matrix (30 fault kinds x the evaluation stage at which the faulty value becomes known - literal folding, "
+         "constant definition, constant, macro parameter, rep count, labels, pad operand - x width x fjm version) and defines the judgement: a faulty source "
+         "fails with one of the library's specific exceptions (never the generic funnel, never raw), the message names the construct, within 20 s, leaving no "
+         "loadable output file; the fault-free skeleton succeeds. TLC emits every case; sources are rendered from templates and assembled in child "
+         "processes (hangs are killed); TLC judges every recorded outcome (Trace_FJAsmDiag). Seeded token/byte mutations of repository programs are judged "
+         "the same way.",
+    note="'For all source texts' is sampled: the matrix is exhaustive over its own dimensions, the rest is seeded mutation. 'Names the construct' = the message "
+         "contains a token of the construct or a line reference.",
+    ref="DESIGN.md section 2 (C14)",
+    technique="TLA+ definition of the failure judgement + TLC enumeration of the fault matrix + TLC validation of recorded assembly outcomes")
+
 NOT_YET = {}
 
 
